@@ -701,6 +701,19 @@ theorem rtimer_afterConnect (hi : Bool) (D : Nat) (proxy : Bool) (s : Sys)
     refine rtimer_runLoop hi D s4 ?_
     rw [q4.env, q3.env, q2.env, q1.env]; exact h
 
+/-- the selector's constructor raised: no loop, no clock, nothing a timer looks at changes -/
+theorem quietP_afterConnectNoSel (proxy : Bool) : Spec QuietP (afterConnectNoSel proxy) := by
+  unfold afterConnectNoSel
+  refine spec_bind quietP_po (spec_modS (fun s => by quiet_leaf)) (fun _ => spec_getS_bind quietP_po (fun s => ?_))
+  refine spec_bind quietP_po (quietP_write _ _) (fun r => ?_)
+  split
+  · exact quietP_closeThenYield _ rfl
+  · refine spec_bind quietP_po (quietP_yieldConnected proxy) (fun _ =>
+      spec_bind quietP_po (spec_modS (fun s => by quiet_leaf)) (fun _ => ?_))
+    unfold runLoopNoSel
+    exact spec_tryC quietP_po (spec_bind quietP_po (quietP_onLoopEnd _) (fun _ => quietP_selClose))
+      (fun x => quietP_runFinally x)
+
 theorem rtimer_run (hi : Bool) (D : Nat) (s : Sys) (h : hi = true → EnvBound D s.env) :
     RTimer hi D s (run s).state := by
   unfold run
@@ -710,6 +723,7 @@ theorem rtimer_run (hi : Bool) (D : Nat) (s : Sys) (h : hi = true → EnvBound D
   | socketFail => exact rtimer_of_quiet (quietP_yieldEv _ rfl) s1
   | otherFail => exact rtimer_of_quiet (quietP_yieldEv _ rfl) s1
   | ok proxy => exact rtimer_afterConnect hi D _ s1 (by rw [q1.env]; exact h)
+  | selFail proxy => exact rtimer_of_quiet (quietP_afterConnectNoSel _) s1
 
 theorem timerInv_init (hi : Bool) (cfg : Cfg) (react : React) (env : List EnvStep)
     (h : hi = true → 0 < cfg.poll) :
